@@ -451,12 +451,13 @@ def specs_c17(tier):
             und.append((a + b, list(ea) + [(u + a, v + a) for (u, v) in eb]))
     if thorough:
         und += [(5, es) for es in gr.shapes(5) if len(es) <= 7]
+    und += [(3, [(0, 1), (1, 2), (1, 1)]), (4, [(0, 1), (2, 2), (3, 3), (2, 3)]), (3, [(0, 0), (1, 1), (2, 2)])]      # self-loops
     for n, es in und:
         for p in (0.0, 0.3, 1.0):
             if p == 0.3 and len(es) > 6:
                 continue
             out.append(dict(kind="undirected", n=n, edges=es, p=p))
-    small = [gr.NAMED[k] for k in ("P2", "P3", "K3")] + [(3, [(0, 1)])]
+    small = [gr.NAMED[k] for k in ("P2", "P3", "K3")] + [(3, [(0, 1)])] + [(3, [(0, 1), (1, 2), (1, 1)]), (2, [(0, 1), (0, 0), (1, 1)])]    # incl. self-loops
     for n, es in small + ([gr.NAMED["S4"], gr.NAMED["P4"], gr.NAMED["C4"]] if thorough else [gr.NAMED["S4"]]):
         for fn in ("nonMarkov_directed_percolate_network", "estimate_nonMarkov_SIR_prob_size"):
             for cont in ("dict", "defaultdict", "lazy", "list", "array"):
